@@ -32,6 +32,7 @@ theorem step_deleted (E : Env S) (g g' : Gen S) (out : Option Prog) (q : Prog) (
   · dsimp only at h
     split at h
     · split at h
+      all_goals (repeat' (split at h))
       all_goals
         simp only [Option.some.injEq, Prod.mk.injEq] at h; obtain ⟨rfl, _⟩ := h; exact hd
     · simp only [Option.some.injEq, Prod.mk.injEq] at h; obtain ⟨rfl, _⟩ := h; exact hd
